@@ -126,6 +126,7 @@ class Mir:
     def __init__(self, path):
         self.fns = {}       # name -> [Fn] (several with same name possible)
         self.consts = {}    # last-segment name -> literal text
+        self.const_fns = {}  # last-segment name -> Fn (constants with a MIR body)
         self._path = path
         self._parse(open(path).read())
 
@@ -138,6 +139,34 @@ class Mir:
             if m:
                 self.consts[m.group(1).split("::")[-1]] = (m.group(3), m.group(2))
                 i += 1
+                continue
+            cm = re.match(r"^const (\S+): (.+?) = \{$", ln)
+            if cm:
+                # a constant with a MIR body (e.g. `const MAX: usize = u16::MAX as usize`)
+                cname = cm.group(1)
+                cfn = Fn(cname, ln, [], cm.group(2))
+                cfn.locals["_0"] = cm.group(2)
+                j = i + 1
+                cur = None
+                while j < len(lines) and lines[j] != "}":
+                    st = lines[j].strip()
+                    lm = re.match(r"^let (?:mut )?(_\d+): (.+);$", st)
+                    bm = re.match(r"^(bb\d+)(?: \(cleanup\))?: \{$", st)
+                    if lm:
+                        cfn.locals[lm.group(1)] = lm.group(2)
+                    elif bm:
+                        cur = bm.group(1)
+                        cfn.blocks[cur] = [[], None, False]
+                    elif cur is not None and st == "}":
+                        stmts = cfn.blocks[cur][0]
+                        if stmts:
+                            cfn.blocks[cur][1] = stmts.pop()
+                        cur = None
+                    elif cur is not None and st and not st.startswith("//"):
+                        cfn.blocks[cur][0].append(st)
+                    j += 1
+                self.const_fns[cname.split("::")[-1]] = cfn
+                i = j + 1
                 continue
             m = FN_RE.match(ln) or FN_UNIT_RE.match(ln)
             if m and ln.startswith("fn "):
@@ -395,6 +424,15 @@ class Exec:
         if last in self.mir.consts and re.fullmatch(r"[A-Z0-9_]+", last):
             t, ty = self.mir.consts[last]
             return self.const_value(t, fn)
+        mstd = re.fullmatch(r"core::num::<impl ([iu](?:8|16|32|64|128|size))>::(MAX|MIN)", txt)
+        if mstd:
+            lo, hi = INT_RANGES[mstd.group(1)]
+            return mk_int(hi if mstd.group(2) == "MAX" else lo, mstd.group(1))
+        if last in self.mir.const_fns and re.fullmatch(r"[A-Z0-9_]+", last):
+            outs = self.run(self.mir.const_fns[last], [], [], [], 1)
+            rets = [o for o in outs if o.kind == "return"]
+            if len(rets) == 1:
+                return rets[0].value
         for rx, f in self.models:
             if rx.startswith("const:") and re.search(rx[6:], txt):
                 return f(self, txt)
@@ -577,6 +615,10 @@ class Exec:
             return self.operand(r, env, fn)
         if r.startswith("(") and r.endswith(")"):
             return TupleV([self.operand(x, env, fn) for x in split_top(r[1:-1])])
+        if r.startswith("[") and r.endswith("]"):
+            return TupleV([self.operand(x, env, fn) for x in split_top(r[1:-1])])
+        if r.startswith("{closure@"):
+            return OpaqueV("closure")
         # aggregate: Path::Variant(args) / Path { f: v, .. } / unit variant
         if r.endswith(")"):
             depth, i = 0, len(r) - 1
@@ -635,9 +677,11 @@ class Exec:
                 if not m:
                     raise EncodingError("cannot parse statement %r in %s" % (st, fn.name))
                 self.assign(m.group(1), self.rvalue(m.group(2), env, fn), env, fn)
-            if self.stop_at and self.stop_at(fn, bb, term):
-                out.append(Outcome("stopped", pc, msg=bb, events=events, trace=trace))
-                return
+            if self.stop_at:
+                label = self.stop_at(fn, bb, term)
+                if label:
+                    out.append(Outcome("stopped", pc, msg=label, events=events, trace=trace, value=dict(env)))
+                    return
             t = term
             if t == "return;":
                 out.append(Outcome("return", pc, value=env.get("_0", TupleV([])), events=events, trace=trace))
@@ -785,6 +829,26 @@ class Exec:
                         self._pending_panics = self._pending_panics + [o]
                         res.append((o.pc, o.events, None))
                 return res
+        # fallback: a function defined in the crate (present in the MIR dump under exactly this
+        # path, or as the last path segments) is inlined -- so refactorings that introduce helper
+        # functions stay encodable
+        cands = [f for n, fs in self.mir.fns.items() for f in fs
+                 if n == callee or n.endswith("::" + callee) or (("::" in callee) and n.endswith("::" + callee.split("::")[-1])
+                                                                  and callee.split("::")[0] in ("Self", fn.name.split("::")[0]))]
+        if not cands:
+            last = callee.split("::")[-1]
+            cands = [f for n, fs in self.mir.fns.items() for f in fs if n.split("::")[-1] == last and re.fullmatch(r"[\w:]+", callee)]
+        bodies = set(f.text for f in cands)
+        if len(bodies) == 1:
+            target = cands[0]
+            res = []
+            for o in self.run(target, args, pc, events, depth + 1):
+                if o.kind == "return":
+                    res.append((o.pc, o.events, o.value))
+                elif o.kind == "panic":
+                    self._pending_panics = self._pending_panics + [o]
+                    res.append((o.pc, o.events, None))
+            return res
         raise EncodingError("call to unmodelled function %r in %s" % (callee, fn.name))
 
 
